@@ -1225,3 +1225,13 @@ for _p in ("C03", "C10"):
     add(_p, "merge-loop-carries-on-after-the-map-iterator-raised", CTXF,
         [("        for file_context in results:\n", "        results = iter(results)\n        while True:\n            try:\n                file_context = next(results)\n            except StopIteration:\n                break\n            except OSError as err:\n                logger.exception(\"%s: %s\", codemod_id, err)\n                continue\n")],
         "fire", "R-ITER-NO-RESUME", "next:results")
+
+SCW = "codemodder/dependency_management/setupcfg_writer.py"
+for _p in ("C14", "C03"):
+    add(_p, "setupcfg-new-lines-after-an-unterminated-last-line", SCW,
+        [("            preceding_lines = original_lines[: last_dep_idx + 1]\n            if not preceding_lines[-1].endswith(\"\\n\"):\n                # the last dependency ends a file without a final newline\n                preceding_lines[-1] += eol\n            new_lines = preceding_lines + new_deps + original_lines[last_dep_idx + 1 :]",
+          "            new_lines = (\n                original_lines[: last_dep_idx + 1]\n                + new_deps\n                + original_lines[last_dep_idx + 1 :]\n            )")],
+        "fire", "R-INSERT-AFTER-TERMINATED", "insert-after:original_lines")
+add("C14", "requirements-new-lines-after-an-unterminated-last-line", RQW,
+    [("        if not original_lines[-1].endswith(\"\\n\"):\n            original_lines[-1] += eol\n", "")],
+    "fire", "R-INSERT-AFTER-TERMINATED", "insert-after:original_lines")
